@@ -351,12 +351,14 @@ def run_property(prop, tier, seed, root):
     level = cfg["level"]
     trusted = sorted(assumptions | set(cfg.get("trusted_base", [])))
     # refuted obligations that belong to a listed known finding are reported apart
-    kf_pats = [k["match"].get("what", "") for k in known if k.get("property") == prop and any(k is h for h, _ in known_hits)]
-    n_known = sum(1 for _, j, r in findings if any(p and re.search(p, r["name"]) for p in kf_pats))
+    kf_hit = [k for k in known if prop in ([k.get("property")] + list(k.get("also_under", []))) and any(k is h for h, _ in known_hits)]
+    n_known = sum(1 for _, j, r in findings if any(k["match"].get("what") and re.search(k["match"]["what"], r["name"])
+                                                  and re.search(k["match"].get("contract", ""), j["contract"]) for k in kf_hit))
     cov = {
-        "obligations": counts["obligations"] - n_known, "discharged": counts["discharged"],
-        "refuted": counts["refuted"] - n_known, "undecided": counts["undecided"],
-        "known_finding_obligations": n_known,
+        # obligations of the cases that are listed known findings (refuted there, or left open there) are reported apart
+        "obligations": counts["obligations"] - n_known - in_known_case, "discharged": counts["discharged"],
+        "refuted": counts["refuted"] - n_known, "undecided": counts["undecided"] - in_known_case,
+        "known_finding_obligations": n_known + in_known_case,
         "checker_cmd": f"./check {prop} --tier {tier}",
         "trusted_base": trusted,
         "functions_under_contract": functions,
